@@ -147,13 +147,15 @@ def setup(sess, inline=()):
 
 def bound_kinds(eng, label, allow_float=True):
     """A slice bound of any kind: None / int / float / something else."""
-    k = eng.choose(4, None, label)
+    k = eng.choose(5, None, label)
     if k == 0:
         return None, "none"
     if k == 1:
         return Int(fresh_name(label)), "int"
     if k == 2:
         return Fl(Real(fresh_name(label))), "float"
+    if k == 4:
+        return "0.25", "other"          # a string that SPELLS a number is still a bound of the wrong type
     return "not-a-number", "other"
 
 
